@@ -27,6 +27,10 @@ class Env:
         self.progs = [prog]            # all programs closures / trait defaults are looked up in (cross-crate: add the siblings)
         self.matrix_apps = set()
         self.allow_negative_matrix = False
+        # time-dependent routing: Dur/Dist additionally depend on the time handed over in the TravelTime argument
+        self.time_aware = False
+        self.DurT = z3.Function('DurT', z3.IntSort(), z3.IntSort(), z3.IntSort(), z3.IntSort())
+        self.DistT = z3.Function('DistT', z3.IntSort(), z3.IntSort(), z3.IntSort(), z3.IntSort())
 
     # -- symbols
     def sym_f(self, name, lo=0, hi=None):
@@ -104,7 +108,30 @@ class Env:
             raise Inconclusive(f'closure body not found for {closure_text}')
         return f
 
-    def matrix(self, st, fn, a, b):
+    def travel_time_term(self, tt):
+        """TravelTime::{Arrival,Departure}(t) -> the time as an Int term (the provider only looks at the time, not at the variant)."""
+        tt = deref_all(tt)
+        if not isinstance(tt, EnumV):
+            raise Inconclusive(f'travel time argument {tt!r}')
+        v = tt.variant()
+        if v is None:
+            raise Inconclusive('symbolic TravelTime variant')
+        f = tt.payload[v][0]
+        return zs(z3.If(f.m, -1, f.v))
+
+    def dur_at(self, a, b, t):
+        """reference look-up (z3 terms): duration from a to b when leaving at time t."""
+        return self.DurT(a, b, t) if self.time_aware else self.Dur(a, b)
+
+    def dist_at(self, a, b, t):
+        return self.DistT(a, b, t) if self.time_aware else self.Dist(a, b)
+
+    def matrix(self, st, fn, a, b, tt=None):
+        if self.time_aware and tt is not None:
+            fn3 = self.DurT if fn is self.Dur else self.DistT
+            t = fn3(a.t, b.t, self.travel_time_term(tt))
+            st.assumed.append(z3.And(t >= 0, t <= self.bound))
+            return FV(False, t)
         t = fn(a.t, b.t)
         key = (fn.name(), str(zs(a.t)), str(zs(b.t)))
         lo = -self.bound if self.allow_negative_matrix else 0
@@ -115,7 +142,7 @@ class Env:
         if trait == 'TransportCost':
             if method in ('duration', 'distance'):
                 # (self, route, from, to, travel_time): time-independent routing - the time argument is ignored (stated)
-                return self.matrix(st, self.Dur if method == 'duration' else self.Dist, args[2], args[3])
+                return self.matrix(st, self.Dur if method == 'duration' else self.Dist, args[2], args[3], args[4] if len(args) > 4 else None)
             if method in ('duration_approx', 'distance_approx'):
                 return self.matrix(st, self.Dur if method == 'duration_approx' else self.Dist, args[2], args[3])
             if method == 'cost':
